@@ -26,6 +26,7 @@ type Req struct {
 	Body    []byte
 	Timeout time.Duration
 	Proc    int
+	Chunked bool // send the body with Transfer-Encoding: chunked (unknown length)
 }
 
 // Result what the client saw
@@ -136,6 +137,9 @@ func (c *Client) Do(rq Req) *Result {
 	var body io.Reader = emptyBody{}
 	if rq.Body != nil {
 		body = bytes.NewReader(rq.Body)
+		if rq.Chunked {
+			body = struct{ io.Reader }{bytes.NewReader(rq.Body)}
+		}
 	}
 	timeout := rq.Timeout
 	if timeout == 0 {
